@@ -137,3 +137,206 @@ Section SortFacts.
     - rewrite isort_perm. apply Permutation_app; symmetry; apply isort_perm.
   Qed.
 End SortFacts.
+
+(* ---------------------------------------------------------------- top-k as a specification *)
+(* s is a top-k selection of l under the key order `ord`: a sub-multiset of min(k,|l|) elements none of which
+   is farther than an element left out.  Ties are arbitrary. *)
+Definition is_topk {A} (ord : key -> key -> bool) (kf : A -> key) (k : nat) (l s : list A) : Prop :=
+  exists rest, Permutation l (s ++ rest) /\ length s = Nat.min k (length l) /\
+               forall x y, In x s -> In y rest -> ord (kf x) (kf y) = true.
+
+Lemma filter_length_le {A} (p : A -> bool) l : (length (filter p l) <= length l)%nat.
+Proof. induction l as [|x t IH]; cbn [filter length]; [lia|]. destruct (p x); cbn [length]; lia. Qed.
+
+Lemma filter_length_lt {A} (p : A -> bool) l x : In x l -> p x = false -> (length (filter p l) < length l)%nat.
+Proof.
+  induction l as [|y t IH]; intros Hin Hp; [destruct Hin|]. cbn [filter length].
+  destruct Hin as [->|Hin].
+  - rewrite Hp. pose proof (filter_length_le p t). lia.
+  - specialize (IH Hin Hp). destruct (p y); cbn [length]; lia.
+Qed.
+
+Lemma filter_all {A} (p : A -> bool) l : (forall x, In x l -> p x = true) -> filter p l = l.
+Proof.
+  induction l as [|y t IH]; intros H; [reflexivity|]. cbn [filter].
+  rewrite (H y (or_introl eq_refl)). f_equal. apply IH. intros x Hx. apply H. right. exact Hx.
+Qed.
+
+Lemma filter_none {A} (p : A -> bool) l : (forall x, In x l -> p x = false) -> filter p l = [].
+Proof.
+  induction l as [|y t IH]; intros H; [reflexivity|]. cbn [filter].
+  rewrite (H y (or_introl eq_refl)). apply IH. intros x Hx. apply H. right. exact Hx.
+Qed.
+
+Lemma filter_perm_length {A} (p : A -> bool) l l' : Permutation l l' -> length (filter p l) = length (filter p l').
+Proof.
+  induction 1 as [|x l l' P IH|x y l|l l' l'' P1 IH1 P2 IH2]; cbn [filter]; try reflexivity.
+  - destruct (p x); cbn [length]; lia.
+  - destruct (p x), (p y); reflexivity.
+  - lia.
+Qed.
+
+Lemma filter_concat_ge {A} (p : A -> bool) (s : list A) ls : In s ls ->
+  (length (filter p s) <= length (filter p (concat ls)))%nat.
+Proof.
+  induction ls as [|h t IH]; intros Hin; [destruct Hin|]. cbn [concat]. rewrite filter_app, app_length.
+  destruct Hin as [->|Hin]; [lia|]. specialize (IH Hin). lia.
+Qed.
+
+Section TopKFacts.
+  Context {A : Type}.
+  Variable ord : key -> key -> bool.
+  Hypothesis ord_total : forall x y, ord x y = true \/ ord y x = true.
+  Hypothesis ord_trans : forall x y z, ord x y = true -> ord y z = true -> ord x z = true.
+  Variable kf : A -> key.
+
+  Lemma is_topk_perm : forall k l l' s, Permutation l l' -> is_topk ord kf k l s -> is_topk ord kf k l' s.
+  Proof.
+    intros k l l' s P (rest & HP & HL & HC). exists rest. split; [|split; [|exact HC]].
+    - rewrite <- P. exact HP.
+    - rewrite <- (Permutation_length P). exact HL.
+  Qed.
+
+  (* the first k of ANY arrangement sorted by key *)
+  Lemma sorted_firstn_is_topk : forall k l S,
+    Permutation S l -> StronglySorted (fun x y => ord (kf x) (kf y) = true) S -> is_topk ord kf k l (firstn k S).
+  Proof.
+    intros k l S P HS. exists (skipn k S). split; [|split].
+    - rewrite firstn_skipn. symmetry. exact P.
+    - rewrite firstn_length, (Permutation_length P). reflexivity.
+    - intros x y Hx Hy. revert Hx Hy. revert x y.
+      assert (G : forall a b, StronglySorted (fun x y => ord (kf x) (kf y) = true) (a ++ b) ->
+                  forall x y, In x a -> In y b -> ord (kf x) (kf y) = true).
+      { induction a as [|h t IH]; intros b H x y Hx Hy; [destruct Hx|].
+        cbn [app] in H. inversion H as [|? ? Ht Hh]; subst. destruct Hx as [<-|Hx].
+        - rewrite Forall_forall in Hh. apply Hh, in_or_app. right. exact Hy.
+        - eapply IH; eassumption. }
+      apply (G (firstn k S) (skipn k S)). rewrite firstn_skipn. exact HS.
+  Qed.
+
+  Lemma sorted_weaken : forall (leb : A -> A -> bool) S,
+    (forall x y, leb x y = true -> ord (kf x) (kf y) = true) ->
+    StronglySorted (fun x y => leb x y = true) S -> StronglySorted (fun x y => ord (kf x) (kf y) = true) S.
+  Proof.
+    intros leb S Hw H. induction H as [|x t Ht IH Hx]; constructor; [exact IH|].
+    rewrite Forall_forall in *. intros y Hy. apply Hw, Hx, Hy.
+  Qed.
+
+  Lemma firstn_isort_is_topk : forall (leb : A -> A -> bool),
+    (forall x y, leb x y = true \/ leb y x = true) ->
+    (forall x y z, leb x y = true -> leb y z = true -> leb x z = true) ->
+    (forall x y, leb x y = true -> ord (kf x) (kf y) = true) ->
+    forall k l, is_topk ord kf k l (firstn k (isort leb l)).
+  Proof.
+    intros leb Ht Htr Hw k l. apply sorted_firstn_is_topk; [apply isort_perm|].
+    eapply sorted_weaken; [exact Hw|]. apply isort_sorted; assumption.
+  Qed.
+
+  (* merging: top-k of the concatenation of per-part top-k' selections (k <= k') is a top-k of everything *)
+  Lemma sum_min_lemma : forall k k' a b b', (k <= k')%nat -> Nat.min k b' = Nat.min k b ->
+    Nat.min k (Nat.min k' a + b') = Nat.min k (a + b).
+  Proof. intros. lia. Qed.
+
+  Lemma merge_is_topk : forall k k' (ts : list (list A * (list A * list A))) s,
+    (k <= k')%nat ->
+    Forall (fun t => Permutation (fst t) (fst (snd t) ++ snd (snd t)) /\
+                     length (fst (snd t)) = Nat.min k' (length (fst t)) /\
+                     forall x y, In x (fst (snd t)) -> In y (snd (snd t)) -> ord (kf x) (kf y) = true) ts ->
+    is_topk ord kf k (concat (map (fun t => fst (snd t)) ts)) s ->
+    is_topk ord kf k (concat (map fst ts)) s.
+  Proof.
+    intros k k' ts s Hk HF (R & HP & HL & HC).
+    set (parts := map fst ts) in *. set (sels := map (fun t => fst (snd t)) ts) in *.
+    set (rests := map (fun t => snd (snd t)) ts).
+    assert (P1 : Permutation (concat parts) (concat sels ++ concat rests)).
+    { subst parts sels rests. clear HP HL HC. induction HF as [|t ts' (Ht & _ & _) _ IH]; cbn [map concat]; [reflexivity|].
+      rewrite Ht, IH. rewrite <- !app_assoc. apply Permutation_app_head.
+      rewrite !app_assoc. apply Permutation_app_tail. apply Permutation_app_comm. }
+    assert (L1 : Nat.min k (length (concat sels)) = Nat.min k (length (concat parts))).
+    { subst parts sels. clear HP HL HC P1. induction HF as [|t ts' (_ & Hl & _) _ IH]; cbn [map concat]; [reflexivity|].
+      rewrite !app_length, Hl. apply sum_min_lemma; assumption. }
+    exists (R ++ concat rests). split; [|split].
+    - rewrite P1, HP. rewrite app_assoc. reflexivity.
+    - rewrite HL. exact L1.
+    - intros x y Hx Hy. apply in_app_or in Hy. destruct Hy as [Hy|Hy]; [apply HC; assumption|].
+      destruct (ord (kf x) (kf y)) eqn:E; [reflexivity|exfalso].
+      (* y lies in the rest of some part t whose selection has k' elements, all strictly below x *)
+      subst rests. apply in_concat in Hy. destruct Hy as (rt & Hrt & Hy).
+      apply in_map_iff in Hrt. destruct Hrt as (t & <- & Ht).
+      rewrite Forall_forall in HF. destruct (HF t Ht) as (HtP & HtL & HtC).
+      set (pb := fun z => negb (ord (kf x) (kf z))).
+      assert (Sall : forall z, In z (fst (snd t)) -> pb z = true).
+      { intros z Hz. unfold pb. destruct (ord (kf x) (kf z)) eqn:E2; [|reflexivity].
+        rewrite (ord_trans _ _ _ E2 (HtC z y Hz Hy)) in E. discriminate. }
+      assert (Lk : length (fst (snd t)) = k').
+      { rewrite HtL. apply Permutation_length in HtP. rewrite app_length in HtP.
+        destruct (snd (snd t)) as [|? ?]; [destruct Hy|]. cbn [length] in HtP. lia. }
+      assert (C1 : (k' <= length (filter pb (concat sels)))%nat).
+      { rewrite <- Lk. rewrite <- (filter_all pb (fst (snd t)) Sall) at 1.
+        apply filter_concat_ge. subst sels. apply in_map_iff. exists t. split; [reflexivity | exact Ht]. }
+      rewrite (filter_perm_length pb _ _ HP), filter_app, app_length in C1.
+      assert (C2 : filter pb R = []).
+      { apply filter_none. intros z Hz. unfold pb. rewrite (HC x z Hx Hz). reflexivity. }
+      rewrite C2 in C1. cbn [length] in C1.
+      assert (C3 : (length (filter pb s) < length s)%nat).
+      { apply (filter_length_lt pb s x Hx). unfold pb.
+        destruct (ord_total (kf x) (kf x)) as [Ex|Ex]; rewrite Ex; reflexivity. }
+      lia.
+  Qed.
+
+  (* re-ranking a candidate multiset C (inside E) that contains some true top-k T of E gives a true top-k of E *)
+  Lemma refine_is_topk : forall k E C others T c2 s,
+    Permutation E (C ++ others) -> Permutation C (T ++ c2) ->
+    is_topk ord kf k E T -> is_topk ord kf k C s -> is_topk ord kf k E s.
+  Proof.
+    intros k E C others T c2 s PE PC (R & HPT & HLT & HCT) (r2 & HPs & HLs & HCs).
+    assert (PR : Permutation R (c2 ++ others)).
+    { apply (Permutation_app_inv_l T). rewrite <- HPT, PE, PC, <- app_assoc. reflexivity. }
+    assert (LE : length E = (length C + length others)%nat) by (rewrite (Permutation_length PE), app_length; reflexivity).
+    assert (LC : length C = (length T + length c2)%nat) by (rewrite (Permutation_length PC), app_length; reflexivity).
+    exists (r2 ++ others). split; [|split].
+    - rewrite PE, HPs, <- app_assoc. reflexivity.
+    - lia.
+    - intros x y Hx Hy. apply in_app_or in Hy. destruct Hy as [Hy|Hy]; [apply HCs; assumption|].
+      destruct (ord (kf x) (kf y)) eqn:E1; [reflexivity|exfalso].
+      assert (HyR : In y R) by (eapply Permutation_in; [symmetry; exact PR | apply in_or_app; right; exact Hy]).
+      set (pb := fun z => negb (ord (kf x) (kf z))).
+      assert (Tall : forall z, In z T -> pb z = true).
+      { intros z Hz. unfold pb. destruct (ord (kf x) (kf z)) eqn:E2; [|reflexivity].
+        rewrite (ord_trans _ _ _ E2 (HCT z y Hz HyR)) in E1. discriminate. }
+      assert (C1 : (length T <= length (filter pb C))%nat).
+      { rewrite (filter_perm_length pb _ _ PC), filter_app, app_length, (filter_all pb T Tall). lia. }
+      rewrite (filter_perm_length pb _ _ HPs), filter_app, app_length in C1.
+      assert (C2 : filter pb r2 = []).
+      { apply filter_none. intros z Hz. unfold pb. rewrite (HCs x z Hx Hz). reflexivity. }
+      rewrite C2 in C1. cbn [length] in C1.
+      assert (C3 : (length (filter pb s) < length s)%nat).
+      { apply (filter_length_lt pb s x Hx). unfold pb.
+        destruct (ord_total (kf x) (kf x)) as [Ex|Ex]; rewrite Ex; reflexivity. }
+      lia.
+  Qed.
+
+  (* canonical key list: any two top-k selections carry the same distances *)
+  Hypothesis ord_antisym : forall x y, ord x y = true -> ord y x = true -> x = y.
+
+  Lemma is_topk_keys : forall k l s, is_topk ord kf k l s ->
+    isort ord (map kf s) = firstn k (isort ord (map kf l)).
+  Proof.
+    intros k l s (rest & HP & HL & HC).
+    rewrite (perm_isort_eq ord ord_total ord_trans ord_antisym (map kf l) (map kf s ++ map kf rest))
+      by (rewrite <- map_app; apply Permutation_map, HP).
+    rewrite (isort_app_cross ord ord_total ord_trans ord_antisym).
+    2:{ intros a b Ha Hb. apply in_map_iff in Ha, Hb. destruct Ha as (x & <- & Hx), Hb as (y & <- & Hy). apply HC; assumption. }
+    assert (Ll : length l = (length s + length rest)%nat) by (rewrite (Permutation_length HP), app_length; reflexivity).
+    assert (La : length (isort ord (map kf s)) = length s) by (rewrite isort_length, map_length; reflexivity).
+    destruct (Nat.le_gt_cases k (length l)) as [Hk|Hk].
+    - rewrite firstn_app. replace (k - length (isort ord (map kf s)))%nat with 0%nat by lia.
+      cbn [firstn]. rewrite app_nil_r. rewrite firstn_all2 by lia. reflexivity.
+    - assert (rest = []) by (destruct rest; [reflexivity | cbn [length] in Ll; lia]). subst rest.
+      cbn [map isort]. rewrite app_nil_r. rewrite firstn_all2 by lia. reflexivity.
+  Qed.
+
+  Lemma is_topk_keys_unique : forall k l s1 s2, is_topk ord kf k l s1 -> is_topk ord kf k l s2 ->
+    isort ord (map kf s1) = isort ord (map kf s2).
+  Proof. intros k l s1 s2 H1 H2. rewrite (is_topk_keys k l s1 H1), (is_topk_keys k l s2 H2). reflexivity. Qed.
+End TopKFacts.
